@@ -27,9 +27,12 @@ SKELETONS = [
     ("fragment-key", "http://x.fr/r#next=", ""),
     ("growth", "http://x.fr/r?u=//%23", ""),
     ("growth-query", "http://x.fr/r?u=/", "%3Fu%3D/"),
+    ("no-scheme-key", "", "u=/a"),
+    ("no-scheme-host-key", "x.fr&url=/", ""),
+    ("nested-amp-cache", "http://x.fr/?u=https%3A%2F%2Fy-fr.cdn.ampproject.org%2Fc%2Fs%2Fy.fr%2F", "&h=1"),
 ]
 BOUNDS = {
-    "quick": "23 redirect skeletons (redirect keys in query, before the path, in userinfo / host / path / fragment position, nested 2 levels with matching escaping, self-referential, AMP and Marfeel caches, youtube, google, look-alike key) x every hole string of length 0..2 (0..3 for the free, query, before-path, nested, self, amp-cache and google skeletons) over all code points; recursive and single-step",
+    "quick": "26 redirect skeletons (redirect keys in query, before the path, in userinfo / host / path / fragment position, nested 2 levels with matching escaping, self-referential, AMP and Marfeel caches, youtube, google, look-alike key) x every hole string of length 0..2 (0..3 for the free, query, before-path, nested, self, amp-cache and google skeletons) over all code points; recursive and single-step",
     "thorough": "holes of length 0..3 (0..4 for the skeletons listed above, free: 0..5)",
 }
 STUBS = ["stdlib urllib.parse.unquote and urljoin interpreted from source", "RecursionError modelled at interpreted call depth 48; a counterexample is only reported when the native call raises RecursionError too"]
